@@ -261,6 +261,29 @@ def entry_matrix(ctx, r, cyc, scale=1):
     return cases
 
 
+def exhaustive_small(ctx):
+    """Thorough tier: one small pipeline, EVERY entry point x outputs x {exposure, sequential observation} x class x
+    position of an enabled model (small-scope exhaustive enumeration)."""
+    groups = [dict(name="photon_collection", models=[dict(name="m0x", enabled=True, key=0), dict(name="m1x", enabled=False, key=1)]),
+              dict(name="charge_measurement", models=[dict(name="m2x", enabled=True, key=2)])]
+    cases = []
+    for mode in ("exposure", "obs_seq"):
+        params = [] if mode == "exposure" else [dict(kind="t", values=[121, 128])]
+        runs = make_runs(groups, params) if params else [dict(id=0, t=None, q=None, tag=None, params=[])]
+        sc = dict(mode=mode, groups=groups, nsteps=2, params=params, runs=runs)
+        for entry in ENTRIES:
+            for outputs in (False, True):
+                for cls in CLASSES:
+                    if entry == "cli" and cls == "KeyboardInterrupt":
+                        continue
+                    for run in runs:
+                        for st in range(2):
+                            for k in (0, 2):
+                                f = dict(run=run["id"], step=st, key=k, cls=cls, msg=f"x-r{run['id']}-s{st}-k{k}")
+                                cases.append(dict(sc, entry=entry, outputs=outputs, faults=[f], scheduler="threads"))
+    return cases
+
+
 def widen_schedulers(ctx, r, cases):
     """dask's process pool for some of the dask cases (start-up cost: seconds per case)."""
     idx = [i for i, c in enumerate(cases) if c["mode"] == "obs_dask"]
@@ -288,6 +311,8 @@ def gen_cases(ctx: Ctx, salt="cases", scale=1):
     else:
         cases += calib_cases(r, cyc, 3 * scale)
         cases += calib_cases(r, cyc, 10 * scale, entries=ENTRIES, max_islands=3)
+        if salt == "cases":
+            cases += exhaustive_small(ctx)
     return cases
 
 
